@@ -170,8 +170,15 @@ func c17Gen(r *core.Rand) (*gtfsrt.FeedMessage, []c17Alert) {
 			if r.Bool() {
 				ma.DisplayBeforeActive = rgen.U64(uint64(r.Intn(7200)))
 			}
-			if r.Bool() {
+			switch r.Intn(4) {
+			case 0, 1:
 				ma.HumanReadableActivePeriod = &gtfsrt.TranslatedString{Translation: []*gtfsrt.TranslatedString_Translation{{Text: rgen.S("Sundays in May"), Language: rgen.S("en")}}}
+			case 2:
+				ma.HumanReadableActivePeriod = &gtfsrt.TranslatedString{} // present but empty
+			}
+			if r.Chance(1, 4) {
+				ma.ScreensSummary = &gtfsrt.TranslatedString{}
+				ma.ServicePlanNumber = []string{""}
 			}
 			proto.SetExtension(a, gtfsrt.E_MercuryAlert, ma)
 			ci.mercury = ma
